@@ -22,6 +22,9 @@ VARIANTS = {
     "pfe": (["gcc", "-O1", "-fpatchable-function-entry=5", "-fcf-protection=none"], 5),
     "pfe-cet": (["gcc", "-O1", "-fpatchable-function-entry=5", "-fcf-protection=full"], 5),
     "clang": (["clang", "-O1", "-fpatchable-function-entry=5"], 5),
+    "pfe-7,2": (["gcc", "-O1", "-fpatchable-function-entry=7,2", "-fcf-protection=none"], 5),
+    "pfe-5,2": (["gcc", "-O1", "-fpatchable-function-entry=5,2", "-fcf-protection=none"], 5),
+    "pfe-nopie": (["gcc", "-O1", "-fpatchable-function-entry=5", "-fno-pie", "-no-pie", "-fcf-protection=none"], 5),
     "fentry": (["gcc", "-O1", "-pg", "-mfentry", "-mnop-mcount", "-fno-pie", "-no-pie", "-fcf-protection=none"], 3),
     "fentry-cet": (["gcc", "-O1", "-pg", "-mfentry", "-mnop-mcount", "-fno-pie", "-no-pie", "-fcf-protection=full"], 3),
 }
